@@ -6,8 +6,14 @@ design       : MC_SfntWrite - the FontBuilder model (tables added in any order, 
                and which Sfnt!Load / TableData read back.
 spec -> impl : every table set/insertion order TLC reaches is driven through the real FontBuilder
                (via whole_font on a map provider); the output is projected by independent readers.
-impl -> spec : whole_font / subset / instance on repository fonts and table sets reconstructed from
-               WOFF2 are projected the same way. All projections are judged by Trace_SfntWrite.
+impl -> spec : whole_font / subset / prince::subset / instance and table sets reconstructed from WOFF2 are
+               projected the same way, on (a) three synthesized families that reach the size- and shape-
+               dependent paths of every writer in every run (composites of every argument width and
+               transform kind; variable fonts whose component offsets cross the byte / word argument
+               boundary; short-loca fonts whose glyf rebuilt from WOFF2 lands below / at / above 131070
+               bytes), (b) repository fonts chosen by measured features. Every glyph record of every
+               written font is walked by the independent reader and its layout judged (GlyphsOK).
+               All projections are judged by Trace_SfntWrite.
 """
 import json
 
@@ -24,10 +30,36 @@ ASSUMPTIONS = [
     "cross-table consistency is demanded of subsets, instances and WOFF2-reconstructed table sets (as the property "
     "states), not of whole_font, which copies tables verbatim",
     "a writing operation that returns Err or panics produces no event here (C01 owns totality)",
+    "glyph records: the independent reader walks every record and reports its layout (flag words, instruction length, "
+    "bytes used, loca length); the size of a composite is recomputed from the flag words by SfntWrite!CompositeBytes; "
+    "padding of at most 3 bytes is demanded only of records the library serialised itself (instance, WOFF2 transform), "
+    "subset copies records with whatever padding the source had",
+    "hmtx.lsb = glyf.xMin is demanded only when the OUTPUT head has flags bit 1 set and the SOURCE font kept that "
+    "promise for all of its glyphs (subset and WOFF2 reconstruction; not for instances)",
+    "prince::subset of a CFF/CFF2 source returns a bare CFF table: judged as a table set whose only partner is the glyph "
+    "list (charstring count = number of ids, every charstring visited by allsorts)",
+]
+
+# families of behaviour that every run must have exercised (measured by the harness on the judged outputs)
+REQUIRED_FAMILIES = [
+    # (1) WOFF2 reconstruction around the short-loca limit
+    "woff2.short-source.head-upgraded-to-long", "woff2.short-source.head-stays-short",
+    "woff2.rebuilt-glyf>131072.source-short", "woff2.rebuilt-glyf<131070.source-short",
+    "woff2.rebuilt-glyf=131070.source-short", "woff2.rebuilt-glyf=131072.source-short",
+    "woff2.repository-reencoded.upgraded", "woff2.repository-reencoded.stays-short",
+    # (2) instancing composites whose offsets vary
+    "var.byte.x-only-leaves-byte-range", "var.byte.y-only-leaves-byte-range", "var.byte.both-leave-byte-range",
+    "var.byte.stays-in-byte-range", "var.word.comes-into-byte-range", "var.component.varied.transformed",
+    "var.glyph.multi-component", "var.component.point-matching", "instance.loca:long",
+    # (3) shapes reaching subset / prince::subset
+    "subset.comp:byte-xy", "subset.comp:word-xy", "subset.comp:byte-pt", "subset.comp:word-pt", "subset.comp:plain",
+    "subset.comp:scale", "subset.comp:xyscale", "subset.comp:2x2", "subset.comp:instr", "subset.comp:multi",
+    "subset.loca:short", "subset.loca:long", "subset.src:nhm<n", "subset.src:lsb=xMin", "subset.src:cff",
+    "subset.src:cff2", "subset.src:glyf", "prince-cff.src:cff", "prince-cff.src:cff2",
 ]
 
 
-def _detail_key(ev):
+def _detail_key(ev, violated=()):
     """Discriminate the failing shape so that a known finding hides only itself."""
     x = ev["o"].get("cross", {})
     parts = []
@@ -36,8 +68,35 @@ def _detail_key(ev):
         ex = x["hmtxLen"] - need
         if ex:
             parts.append("hmtxExcess=%s" % ("2*numGlyphs" if ex == 2 * x["numGlyphs"] else ex))
+    if "LocaOK" in violated and x:
+        need = (x["numGlyphs"] + 1) * (2 if x["locFormat"] == 0 else 4)
+        if x["locaLen"] != need:
+            # head and loca disagree about the offset width: everything read through loca is a consequence
+            per = x["locaLen"] // (x["numGlyphs"] + 1) if x["locaLen"] % (x["numGlyphs"] + 1) == 0 else "other"
+            parts.append("head.indexToLocFormat=%s,loca=%s*(numGlyphs+1)" % (x["locFormat"], per))
+            return ",".join(parts)
+        if not x["locaMonotone"]:
+            parts.append("loca-not-monotone")
+        if x["locaLast"] > x["glyfLen"]:
+            parts.append("loca-last>glyf")
+    if "GlyphsOK" in violated:
+        # which kind of record fails and how (never a glyph id, a length or a count)
+        why = set()
+        for c in x.get("glyphClasses", []):
+            if not c["ok"]:
+                why.add("%s:%s" % (c["kind"], c["why"].split(":")[0]))
+            elif c["used"] > c["len"]:
+                why.add("%s:used>len" % c["kind"])
+            elif x.get("built", {}).get("glyf") and c["len"] - c["used"] > 3:
+                why.add("%s:slack>3" % c["kind"])
+        parts.append("glyph=" + "/".join(sorted(why) or ["layout"]))
     if x and x.get("reload", {}).get("tried") and not x["reload"]["ok"]:
         parts.append("reload=" + x["reload"]["why"][:40].replace(" ", "_"))
+    if "ReloadOK" in violated and x.get("reload", {}).get("ok"):
+        r = x["reload"]
+        parts.append("reload:" + ",".join(k + "<numGlyphs" for k in ("advances", "outlines") if r[k] != x["numGlyphs"]))
+    if "LsbOK" in violated:
+        parts.append("lsb!=xMin")
     return ",".join(parts)
 
 
@@ -64,8 +123,9 @@ def run(ctx):
     if rep["events"] == 0:
         raise vlib.ToolError("FontBuilder produced no output for any generated table set")
     rec_trace = ctx.path("rec_trace.ndjson")
-    rec = vlib.run_harness(binp, ["record", ctx.seed, 24 if ctx.quick else 1000, rec_trace], timeout=3000)
-    ctx.note("record: %s" % json.dumps(rec))
+    rec = vlib.run_harness(binp, ["record", ctx.seed, 40 if ctx.quick else 1000, rec_trace] + ([] if ctx.quick else ["all"]),
+                           timeout=3000)
+    ctx.note("record: %s" % json.dumps({k: v for k, v in rec.items() if k != "families"}))
     events = {}
     with open(trace, "w") as f:
         i = 0
@@ -76,16 +136,65 @@ def run(ctx):
                 e["case"] = part + ":" + e["case"]
                 events[i] = e
                 f.write(json.dumps(e, separators=(",", ":")) + "\n")
-        # binding self-check: a directory checksum limb off by one, and a broken cross fact
+        # binding self-check: the judge must reject each of these planted corruptions
         good = next((e for e in events.values() if e["ev"] == "Written" and e["a"]["op"] == "subset"), None) or \
             next(e for e in events.values() if e["ev"] == "Written")
-        bad1 = json.loads(json.dumps(good))
-        bad1["o"]["sfnt"]["records"][0]["sum"][1] = (bad1["o"]["sfnt"]["records"][0]["sum"][1] + 1) % 65536
-        bad1.update(i=10 ** 8, case="selftest-corrupt-sum")
-        bad2 = json.loads(json.dumps(good))
-        bad2["o"]["sfnt"]["records"][0]["off"] += 2
-        bad2.update(i=10 ** 8 + 1, case="selftest-corrupt-align")
-        for b in (bad1, bad2):
+        planted_events = []
+
+        def plant(base, name, edit):
+            b = json.loads(json.dumps(base))
+            edit(b)
+            b.update(i=10 ** 8 + len(planted_events), case=name)
+            planted_events.append(b)
+
+        def ed_sum(b):
+            b["o"]["sfnt"]["records"][0]["sum"][1] = (b["o"]["sfnt"]["records"][0]["sum"][1] + 1) % 65536
+
+        def ed_align(b):
+            b["o"]["sfnt"]["records"][0]["off"] += 2
+        plant(good, "selftest-corrupt-sum", ed_sum)
+        plant(good, "selftest-corrupt-align", ed_align)
+        # a WOFF2 table set whose head was upgraded to long: put head back to short (loca stays long)
+        up = next((e for e in events.values() if e["ev"] == "Tables" and e["a"]["op"] == "woff2"
+                   and e["o"]["cross"]["locFormat"] == 1 and e["o"]["cross"]["built"]["loca"]), None)
+        if up is None:
+            raise vlib.ToolError("no WOFF2 table set with an upgraded (long) loca in the trace: self-check impossible")
+
+        def ed_head(b):
+            b["o"]["cross"]["locFormat"] = 0
+        plant(up, "selftest-head-short-loca-long", ed_head)
+        # an instance with a composite class: announce word arguments where bytes were read
+        inst = next((e for e in events.values() if e["ev"] == "Written" and e["a"]["op"] == "instance"
+                     and any(c["kind"] == "composite" and c["ok"] for c in e["o"]["cross"]["glyphClasses"])), None)
+        if inst is None:
+            raise vlib.ToolError("no instance with a composite glyph in the trace: self-check impossible")
+
+        def ed_words(b):
+            c = next(c for c in b["o"]["cross"]["glyphClasses"] if c["kind"] == "composite" and c["ok"])
+            c["flags"][0] ^= 1
+
+        def ed_short(b):
+            c = next(c for c in b["o"]["cross"]["glyphClasses"] if c["kind"] == "composite" and c["ok"])
+            c["len"] = c["used"] - 1
+
+        def ed_instr(b):
+            c = next(c for c in b["o"]["cross"]["glyphClasses"] if c["kind"] == "composite" and c["ok"])
+            c["flags"][-1] ^= 0x100
+
+        def ed_eof(b):
+            c = next(c for c in b["o"]["cross"]["glyphClasses"] if c["kind"] == "composite" and c["ok"])
+            c["ok"] = False
+            c["why"] = "eof:componentArguments"
+
+        def ed_slack(b):
+            c = b["o"]["cross"]["glyphClasses"][0]
+            c["len"] = c["used"] + 4
+        plant(inst, "selftest-composite-width", ed_words)
+        plant(inst, "selftest-composite-short", ed_short)
+        plant(inst, "selftest-composite-instr", ed_instr)
+        plant(inst, "selftest-composite-eof", ed_eof)
+        plant(inst, "selftest-record-slack", ed_slack)
+        for b in planted_events:
             f.write(json.dumps(b, separators=(",", ":")) + "\n")
     total, mism = vlib.judge_trace_parallel(ctx, "Trace_SfntWrite", "Trace_SfntWrite.cfg", trace, "judge",
                                             parts=4 if ctx.quick else 10)
@@ -93,16 +202,29 @@ def run(ctx):
     planted = {}
     violations = []
     for m in mism:
-        if m["case"].startswith("selftest-corrupt"):
+        if m["case"].startswith("selftest-"):
             planted[m["case"]] = set(m["violated"])
             continue
         ev = events[m["i"]]
-        key = "%s|%s|%s" % (ev["ev"] + ":" + m["op"], "+".join(m["violated"]), _detail_key(ev))
-        violations.append(Violation(key, "%s %s violates %s (%s)" % (m["op"], m["case"], m["violated"], vlib.short(ev["a"], 200)),
-                                    {"event": ev, "violated": m["violated"]}))
-    if "ChecksumsOK" not in planted.get("selftest-corrupt-sum", set()) or \
-            "LayoutOK" not in planted.get("selftest-corrupt-align", set()):
-        raise vlib.ToolError("binding self-check failed: planted corruptions gave %s" % planted)
+        vio = sorted(m["violated"])
+        key = "%s|%s|%s" % (ev["ev"] + ":" + m["op"], "+".join(vio), _detail_key(ev, vio))
+        violations.append(Violation(key, "%s %s violates %s (%s)" % (m["op"], m["case"], vio, vlib.short(ev["a"], 200)),
+                                    {"event": ev, "violated": vio}))
+    expect_planted = {"selftest-corrupt-sum": "ChecksumsOK", "selftest-corrupt-align": "LayoutOK",
+                      "selftest-head-short-loca-long": "LocaOK", "selftest-composite-width": "GlyphsOK",
+                      "selftest-composite-short": "GlyphsOK", "selftest-composite-instr": "GlyphsOK",
+                      "selftest-composite-eof": "GlyphsOK", "selftest-record-slack": "GlyphsOK"}
+    missed = [c for c, clause in expect_planted.items() if clause not in planted.get(c, set())]
+    if missed:
+        raise vlib.ToolError("binding self-check failed: planted corruptions %s accepted; judge said %s" % (missed, planted))
+    # vacuity: every family of size- / shape-dependent behaviour was exercised by a judged output.
+    # (reported after the violations: a broken writer may be the very reason a family is missing)
+    fam = rec.get("families", {})
+    missing = [k for k in REQUIRED_FAMILIES if not fam.get(k)]
+    if missing and not violations:
+        raise vlib.ToolError("families not exercised by this run: %s" % missing)
+    if missing:
+        ctx.note("families not exercised (violations present): %s" % missing)
     written = [e for e in events.values() if e["ev"] == "Written"]
     coverage = {
         "states": mc.distinct,
@@ -114,11 +236,17 @@ def run(ctx):
         "generated_table_sets": n_cases[0],
         "fontbuilder_outputs_judged": rep["events"],
         "recorded_ops": rec.get("ops", {}),
+        "families_exercised": fam,
+        "repository_fonts_surveyed": rec.get("surveyed", 0),
+        "repository_fonts_used": rec.get("fonts", 0),
+        "source_features_covered_by_chosen_repository_fonts": rec.get("features_covered_by_chosen_fonts", []),
+        "glyph_records_walked": sum(c["count"] for e in events.values() if e["ev"] in ("Written", "Tables")
+                                    and e["a"]["op"] != "builder" for c in e["o"]["cross"].get("glyphClasses", [])),
         "recorded_refused": rec.get("refused", 0),
         "recorded_panics_not_judged_here": rec.get("panics", 0),
         "panic_samples": rec.get("panic_samples", []),
         "events_judged": total,
-        "binding_selfcheck": "corrupted checksum and misaligned offset rejected",
+        "binding_selfcheck": "rejected: " + ", ".join(sorted(expect_planted)),
         "exhaustive": True,
         "explanation": "exhaustive over the FontBuilder model (%s); repository fonts sampled by seed (quick) or all (thorough)" % cfg,
     }
